@@ -14,6 +14,18 @@
 (* logout response).  Every history up to MaxLen steps that ends in a      *)
 (* Present is emitted and replayed on one real ServiceProvider value       *)
 (* (harness/sp_trust_history_test.go).                                     *)
+(*                                                                         *)
+(* Forms of a presented message: a logout response; a SAML response signed *)
+(* on the Response (level "response") or only on its Assertion (level      *)
+(* "assertion", Response unsigned); and "tampered" = the genuine           *)
+(* assertion-signed response of key k with the assertion's content altered *)
+(* after signing (ID and Signature element kept, other NameID).  The       *)
+(* genuine assertion-signed message of a key is the SAME message at every  *)
+(* step (same ID, same SignatureValue), so a tampered message may follow   *)
+(* the accepted genuine one on the same ServiceProvider value.  C01: the   *)
+(* altered content was never covered by a signature - a tampered message   *)
+(* is rejected at every position of every history, whatever was presented  *)
+(* or trusted before.                                                      *)
 (***************************************************************************)
 EXTENDS Integers, Sequences, FiniteSets, TLC, Json
 
@@ -21,7 +33,12 @@ CONSTANT MaxLen
 
 Keys   == {"K1", "K2", "KA"}              \* KA is never in any configuration
 Trusts == {{"K1"}, {"K2"}, {"K1", "K2"}}
-Kinds  == {"response", "logout"}
+Forms  == {[kind |-> "logout",   level |-> "response"],
+           [kind |-> "response", level |-> "response"],
+           [kind |-> "response", level |-> "assertion"],
+           [kind |-> "tampered", level |-> "assertion"]}
+\* the verdict the statements fix for form f by key k under configuration T
+Verdict(f, k, T) == IF f.kind # "tampered" /\ k \in T THEN "accept" ELSE "reject"
 
 VARIABLES trust, hist
 vars == <<trust, hist>>
@@ -31,23 +48,25 @@ Init == trust \in Trusts /\ hist = <<[a |-> "init", t |-> trust]>>
 SetTrust(T) == /\ T # trust /\ Len(hist) <= MaxLen
                /\ trust' = T
                /\ hist' = Append(hist, [a |-> "set", t |-> T])
-Present(kind, k) == /\ Len(hist) <= MaxLen
-                    /\ hist' = Append(hist, [a |-> "present", kind |-> kind, k |-> k,
-                                             v |-> IF k \in trust THEN "accept" ELSE "reject"])
-                    /\ UNCHANGED trust
-Next == (\E T \in Trusts : SetTrust(T)) \/ (\E kind \in Kinds, k \in Keys : Present(kind, k))
+Present(f, k) == /\ Len(hist) <= MaxLen
+                 /\ hist' = Append(hist, [a |-> "present", kind |-> f.kind, level |-> f.level, k |-> k,
+                                          v |-> Verdict(f, k, trust)])
+                 /\ UNCHANGED trust
+Next == (\E T \in Trusts : SetTrust(T)) \/ (\E f \in Forms, k \in Keys : Present(f, k))
 Spec == Init /\ [][Next]_vars
 
 Last == hist[Len(hist)]
 \* the statements, on the model: accepted only under the configuration in force
 OnlyCurrentTrust == Last.a = "present" /\ Last.v = "accept" => Last.k \in trust
 \* and a genuine message of a currently trusted key is accepted whatever happened before
-CurrentTrustSuffices == Last.a = "present" /\ Last.k \in trust => Last.v = "accept"
+CurrentTrustSuffices == Last.a = "present" /\ Last.kind # "tampered" /\ Last.k \in trust => Last.v = "accept"
+\* content altered after signing is never accepted, at any position of any history
+TamperedNeverAccepted == \A i \in 1..Len(hist) : hist[i].a = "present" /\ hist[i].kind = "tampered" => hist[i].v = "reject"
 \* the verdict is a function of the current configuration alone (history independence)
 HistoryIndependent ==
   \A i \in 1..Len(hist) : hist[i].a = "present" =>
      LET cfgAt == CHOOSE j \in 1..i : hist[j].a \in {"init", "set"} /\ \A m \in (j + 1)..i : hist[m].a = "present"
-     IN hist[i].v = (IF hist[i].k \in hist[cfgAt].t THEN "accept" ELSE "reject")
+     IN hist[i].v = Verdict(hist[i], hist[i].k, hist[cfgAt].t)
 
 Emit == Last.a = "present" => PrintT(<<"THIST", ToJson([hist |-> hist])>>)
 =============================================================================
